@@ -1137,13 +1137,10 @@ func runC19(c *Case, out func(string)) {
 	if nTxOwn > 0 && nScanHit > 0 && nRej > 0 {
 		nt = 1
 	}
-	var ks []string
-	for k, v := range kinds {
-		ks = append(ks, fmt.Sprintf("%s:%d", k, v))
-	}
-	sort.Strings(ks)
-	out(fmt.Sprintf("META requests=%d rejected=%d dead_handle=%d tx_own=%d scan_hits=%d blocked=%d kinds=%s nontrivial=%d",
-		nReq, nRej, nHandleDead, nTxOwn, nScanHit, nBlocked, strings.Join(ks, ","), nt))
+	out(fmt.Sprintf("META requests=%d rejected=%d dead_handle=%d tx_own=%d scan_hits=%d blocked=%d scans=%d txops=%d writes=%d nontrivial=%d",
+		nReq, nRej, nHandleDead, nTxOwn, nScanHit, nBlocked, kinds["scan"]+kinds["tscan"],
+		kinds["tget"]+kinds["tput"]+kinds["tdel"]+kinds["tscan"]+kinds["commit"]+kinds["rollback"],
+		kinds["put"]+kinds["del"]+kinds["batch"], nt))
 }
 
 // full live content through the embedded iterator
@@ -1235,6 +1232,7 @@ type c19Gen struct {
 	open   []int // begin indices of live handles
 	openRW bool
 	dead   []int
+	lastK  string // key of the most recent tput / tdel
 }
 
 func (g *c19Gen) line(f string, a ...interface{}) { fmt.Fprintf(g.w, f+"\n", a...) }
@@ -1256,11 +1254,17 @@ func (g *c19Gen) txOp() {
 	h := g.handle()
 	switch pick(r, 4, 5, 3, 4, 2, 2) {
 	case 0:
-		g.line("tget %s %s", h, c19Key(r, g.nk))
+		k := c19Key(r, g.nk)
+		if g.lastK != "" && r.Intn(2) == 0 {
+			k = g.lastK
+		}
+		g.line("tget %s %s", h, k)
 	case 1:
-		g.line("tput %s %s %s", h, c19Key(r, g.nk), c19Value(r))
+		g.lastK = c19Key(r, g.nk)
+		g.line("tput %s %s %s", h, g.lastK, c19Value(r))
 	case 2:
-		g.line("tdel %s %s", h, c19Key(r, g.nk))
+		g.lastK = c19Key(r, g.nk)
+		g.line("tdel %s %s", h, g.lastK)
 	case 3:
 		g.line("tscan %s %s", h, c19ScanArgs(r))
 	case 4, 5:
@@ -1301,7 +1305,18 @@ func (g *c19Gen) begin(ro bool) {
 
 func (g *c19Gen) plainOp() {
 	r := g.r
-	switch pick(r, 5, 8, 3, 4, 6, 1, 1, 2) {
+	switch pick(r, 5, 8, 3, 4, 6, 1, 1, 2, 2) {
+	case 8: // outside the limits
+		switch r.Intn(4) {
+		case 0:
+			g.line("put - %s 0", c19Value(r))
+		case 1:
+			g.line("get @%d:%d", c19DocMaxKey+1+r.Intn(3), r.Intn(5))
+		case 2:
+			g.line("del - 1")
+		case 3:
+			g.line("put @%d:%d 01 0", c19DocMaxKey+1, r.Intn(5))
+		}
 	case 0:
 		g.line("get %s", c19Key(r, g.nk))
 	case 1:
